@@ -7,6 +7,8 @@ package main
 var controlSources = map[string]string{
 	"filter/zz_verif_controls.go": `package filter
 
+import "github.com/alecthomas/participle/v2"
+
 // C08.7: a slice expression whose low bound the compiler cannot prove
 func zzVerifControlExcerpt(src string, off int) string {
 	chars := []rune(src)
@@ -14,6 +16,14 @@ func zzVerifControlExcerpt(src string, off int) string {
 }
 
 var _ = zzVerifControlExcerpt
+
+// C08.8: a per-call parse option
+func zzVerifControlParseLoose(s string) error {
+	_, err := Parser.ParseString("", s, participle.AllowTrailing(true))
+	return err
+}
+
+var _ = zzVerifControlParseLoose
 `,
 	"actions/zz_verif_controls.go": `package actions
 
@@ -58,6 +68,17 @@ func zzVerifControlLookup(ctx context.Context, tx *ent.Tx, name string) (*ent.Su
 // C10.6: waiter map touched without nmu
 func zzVerifControlUnlocked(id uuid.UUID) int {
 	return len(pubWaiters[id])
+}
+
+// C16.9: a result dereferenced without its error having been looked at
+func zzVerifControlUnchecked(ctx context.Context, tx *ent.Tx, id uuid.UUID) string {
+	sub, _ := tx.Subscription.Get(ctx, id)
+	return sub.Name
+}
+
+// C12.8: a single resource looked up by a prefix of its name
+func zzVerifControlPrefixLookup(ctx context.Context, tx *ent.Tx, name string) (*ent.Subscription, error) {
+	return tx.Subscription.Query().Where(subscription.NameHasPrefix(name), subscription.DeletedAtIsNil()).Only(ctx)
 }
 
 // C03.3 / C06.1: delivery creation and dead-lettering from an unlisted caller
